@@ -1,14 +1,27 @@
 """C14 -- A snippet alias expands exactly like its definition, and resolution ends."""
 import json
 import os
+import signal
 import sys
 
+import attr_util as au
 import snippet_util as su
 from common import enc_str, VERIF
 from markup_util import enc_config, decode_expand, impl_expand, NotModelled, canon_cfg
 
 PLAIN = ['div', 'p', 'span', 'x-y', 'custom', 'em']      # not snippet keys
 USER_KEYS = ['s1', 's2', 's3', 's4', 's5', 's6']
+
+
+TIME_LIMIT = 10.0        # seconds per expansion; generated tables expand in milliseconds
+
+
+class Timeout(BaseException):
+    pass
+
+
+class TooDeep(BaseException):
+    pass
 
 
 # ---------------------------------------------------------------- observer: nesting depth of resolve()
@@ -27,11 +40,24 @@ def expand_with_depth(abbr, cfg):
                 d += 1
             f = f.f_back
         maxd[0] = max(maxd[0], d)
+        if d > len(set(config.snippets.values())):
+            raise TooDeep()          # deeper than the number of (distinct) snippets: the statement's bound is broken
         return orig(snippet, config)
     ms.parse = wrapped
+
+    def on_alarm(signum, frame):
+        raise Timeout()
+    old = signal.signal(signal.SIGALRM, on_alarm)
+    signal.setitimer(signal.ITIMER_REAL, TIME_LIMIT)
     try:
         r = impl_expand(abbr, cfg)
+    except Timeout:
+        r = ('timeout',)
+    except TooDeep:
+        r = ('too-deep',)
     finally:
+        signal.setitimer(signal.ITIMER_REAL, 0)
+        signal.signal(signal.SIGALRM, old)
         ms.parse = orig
     return r, maxd[0]
 
@@ -190,6 +216,10 @@ def check_case(c):
     ra, depth = expand_with_depth(c['a'], c['config'])
     if ra[0] == 'recursion':
         return 'resolution does not terminate (RecursionError)', ra, depth
+    if ra[0] == 'too-deep':
+        return 'snippet nesting depth %d exceeds the number of distinct snippets of the configuration' % depth, ra, depth
+    if ra[0] == 'timeout':
+        return 'resolution did not finish within %d s (nesting depth reached %d)' % (TIME_LIMIT, depth), ra, depth
     if ra[0] != 'ok':
         return 'expand(alias form) raised %r' % (ra,), ra, depth
     if c.get('bound') is not None and depth > c['bound']:
@@ -202,7 +232,7 @@ def check_case(c):
 
 
 def run(ctx):
-    ok = ctx.build(['props/C14.vo', 'run/MarkupRun.vo'])
+    ok = ctx.build(['props/C14.vo', 'run/MarkupRun.vo', 'run/AttrRun.vo'])
     if ok:
         ctx.obligations('props/C14.v')
     model = ctx.model('markup') if ok else None
@@ -220,8 +250,15 @@ def run(ctx):
     cases += user_cases(ctx, 400 if ctx.tier == 'quick' else 8000)
     wires, idx, impl = [], [], []
     maxdepth = 0
+    timeouts = 0
     for k, c in enumerate(cases):
+        if timeouts >= 3:
+            ctx.cover('C14:skipped-after-timeouts')
+            impl.append(('skipped',))
+            continue
         why, ra, depth = check_case(c)
+        if ra[0] == 'timeout':
+            timeouts += 1
         maxdepth = max(maxdepth, depth)
         impl.append(ra)
         ctx.count_eval()
@@ -244,7 +281,7 @@ def run(ctx):
         outs = model.run(wires)
         for k, w in zip(idx, outs):
             mo = decode_expand(w)
-            if mo != impl[k] and impl[k][0] != 'recursion':
+            if mo != impl[k] and impl[k][0] not in ('recursion', 'timeout', 'too-deep', 'skipped'):
                 dis += 1
                 c = cases[k]
                 if dis <= 5:
@@ -252,6 +289,8 @@ def run(ctx):
                     ctx.broken.append({'kind': 'correspondence', 'file': 'markup-C14', 'input': c['a'], 'config': canon_cfg(c['config']),
                                        'impl': repr(impl[k])[:300], 'model': repr(mo)[:300]})
     ctx.cov['correspondence']['markup_C14'] = {'cases': len(wires), 'disagreements': dis}
+    if ok:
+        au.compare_trees(ctx, 'C14', [(c['a'], c['config']) for c, r in zip(cases, impl) if r[0] == 'ok'])
     ctx.cov['corpus_cases'] = n_corpus
     ctx.cov['max_resolve_depth_seen'] = maxdepth
     for c, r in list(zip(cases, impl))[-40:-36]:
